@@ -492,8 +492,25 @@ func ruleOpTable(p *Program, r *Reporter) {
 					}
 				}
 			}
+			// a function over operands that are not both numbers or both strings
+			// (string × regexp) has no arithmetic cells: its cells are decided
+			// by R-MATCHCELLS, whatever shape it is written in
+			nonArith := false
+			if len(fn.Params) >= 4 {
+				kinds := map[string]bool{}
+				for _, b := range fn.Blocks {
+					for _, ins := range b.Instrs {
+						if ta, ok := ins.(*ssa.TypeAssert); ok && (ta.X == ssa.Value(fn.Params[2]) || ta.X == ssa.Value(fn.Params[3])) {
+							kinds[objectStructName(ta.AssertedType)] = true
+						}
+					}
+				}
+				nonArith = kinds["Regexp"]
+			}
 			if delegates {
 				r.Info("table "+fn.Name(), p.Pos(fn.Pos()), "delegates to a sibling table; no cells of its own")
+			} else if nonArith {
+				r.Info("table "+fn.Name(), p.Pos(fn.Pos()), "operands are a string and a regexp: no arithmetic cells (R-MATCHCELLS decides it)")
 			} else {
 				r.Undecided("table "+fn.Name(), p.Pos(fn.Pos()), "function has the operator-table signature but neither a switch over its opcode parameter nor a call of a sibling table")
 			}
